@@ -225,7 +225,8 @@ type TopicMsgRec struct {
 	Target string `json:"target"`
 	What   string `json:"what"`
 	// Single: the topic had exactly one message (with a name of its own) before the append
-	Single bool `json:"single_message_before"`
+	Single bool   `json:"single_message_before"`
+	Coq    string `json:"coq"` // the edit as a term of J5sEdit.edit (EAppendTopicMsg file elem msg)
 }
 
 // AppendTopicMessage appends a named message to a publish topic of pkg all of whose messages carry
@@ -233,15 +234,16 @@ type TopicMsgRec struct {
 // by an append), preferring topics with exactly one message. nil when the package has no such topic.
 func AppendTopicMessage(r *vh.Rand, b *Bundle, pkg string) *TopicMsgRec {
 	type site struct {
-		f *File
-		t *Topic
+		f      *File
+		t      *Topic
+		fi, ei int
 	}
 	var single, multi []site
-	for _, f := range b.Files {
+	for fi, f := range b.Files {
 		if f.Package() != pkg {
 			continue
 		}
-		for _, el := range f.Elements {
+		for ei, el := range f.Elements {
 			if el.Kind != "topic" || el.Topic.Kind != "publish" || len(el.Topic.Msgs) == 0 {
 				continue
 			}
@@ -253,9 +255,9 @@ func AppendTopicMessage(r *vh.Rand, b *Bundle, pkg string) *TopicMsgRec {
 				continue
 			}
 			if len(el.Topic.Msgs) == 1 {
-				single = append(single, site{f, el.Topic})
+				single = append(single, site{f, el.Topic, fi, ei})
 			} else {
-				multi = append(multi, site{f, el.Topic})
+				multi = append(multi, site{f, el.Topic, fi, ei})
 			}
 		}
 	}
@@ -272,7 +274,8 @@ func AppendTopicMessage(r *vh.Rand, b *Bundle, pkg string) *TopicMsgRec {
 	if r.Chance(70) {
 		m.Fields = []*Property{prop("extraField", str("string"))}
 	}
-	rec := &TopicMsgRec{Kind: "topicmsg", Target: fmt.Sprintf("%s: topic %s", s.f.Path(), s.t.Name), What: "message " + name, Single: len(s.t.Msgs) == 1}
+	rec := &TopicMsgRec{Kind: "topicmsg", Target: fmt.Sprintf("%s: topic %s", s.f.Path(), s.t.Name), What: "message " + name, Single: len(s.t.Msgs) == 1,
+		Coq: fmt.Sprintf("EAppendTopicMsg %d %d %s", s.fi, s.ei, m.Coq())}
 	s.t.Msgs = append(s.t.Msgs, m)
 	return rec
 }
@@ -287,6 +290,8 @@ func TopicMsgCorpus() (before, after *Bundle, pkg string, rec *TopicMsgRec) {
 		}
 		return &Bundle{Files: []*File{file([]string{"foo", "v1"}, "a", &Element{Kind: "topic", Topic: t})}}
 	}
-	return mk("OrderPlaced"), mk("OrderPlaced", "OrderShipped"), "foo.v1",
-		&TopicMsgRec{Kind: "topicmsg", Target: "foo/v1/a.j5s: topic Orders", What: "message OrderShipped", Single: true}
+	after = mk("OrderPlaced", "OrderShipped")
+	return mk("OrderPlaced"), after, "foo.v1",
+		&TopicMsgRec{Kind: "topicmsg", Target: "foo/v1/a.j5s: topic Orders", What: "message OrderShipped", Single: true,
+			Coq: "EAppendTopicMsg 0 0 " + after.Files[0].Elements[0].Topic.Msgs[1].Coq()}
 }
